@@ -124,22 +124,6 @@ impl Adm {
         }
         Ok(())
     }
-
-    /// Does the dense sequence attain η on `[0, δ)` for every δ up to `upto`?
-    /// (Then the curve is exact and realisable on that range.)
-    pub fn dense_attains(&self, dense: &[u64], upto: u64) -> bool {
-        let upto = upto.min(self.eta.len() as u64 - 1);
-        let mut idx = 0usize;
-        for delta in 1..=upto {
-            while idx < dense.len() && dense[idx] < delta {
-                idx += 1;
-            }
-            if idx != self.eta[delta as usize] {
-                return false;
-            }
-        }
-        true
-    }
 }
 
 #[derive(Clone, Debug)]
@@ -155,8 +139,6 @@ pub enum RelStrategy {
     Anchored { anchor: u64 },
     /// Exactly one event at `at`.
     Single { at: u64 },
-    /// No events.
-    Silent,
 }
 
 #[derive(Default, Clone, Debug)]
@@ -179,7 +161,6 @@ pub fn generate(
         return t;
     }
     match strat {
-        RelStrategy::Silent => {}
         RelStrategy::Single { at } => {
             if *at <= horizon {
                 t.push(*at)
@@ -247,11 +228,4 @@ pub fn generate(
         }
     }
     t
-}
-
-/// Count events of `t` (sorted) inside `[from, from+len)`.
-pub fn count_in_window(t: &[u64], from: u64, len: u64) -> usize {
-    let lo = t.partition_point(|x| *x < from);
-    let hi = t.partition_point(|x| *x < from + len);
-    hi - lo
 }
